@@ -2,7 +2,7 @@
 # setup.sh [model]  — offline build of the framework: full .vo compilation of the Coq development (proofs included),
 # extraction of the executable models and the OCaml driver. With argument "model" only the model part is rebuilt.
 set -e
-V=/verif
+V=$(cd "$(dirname "$0")/.." && pwd)
 # tie T: regenerate the accessor models / layouts / inventories from /repo's current sources into coq/gen
 python3 -c "import sys; sys.path.insert(0,'$V/lib'); import runner; runner.gen_sync()"
 cd $V/coq
